@@ -37,11 +37,15 @@ type Report struct {
 	e          *Engine
 	cfg        string
 	only       string
+	onlySet    map[string]bool // replay: evaluate just these rule/construct keys
 }
 
 func (r *Report) add(o Ob) {
 	o.Config = r.cfg
 	if r.only != "" && r.only != o.Rule+"/"+o.Construct {
+		return
+	}
+	if r.onlySet != nil && !r.onlySet[o.Rule+"/"+o.Construct] {
 		return
 	}
 	if !o.OK && o.Kind == "" {
@@ -79,7 +83,7 @@ func (r *Report) floor(rule string, n, min int) {
 		r.Floors = map[string][2]int{}
 	}
 	r.Floors[rule] = [2]int{n, min}
-	if n < min && r.only == "" {
+	if n < min && r.only == "" && r.onlySet == nil {
 		r.undecided(rule, "floor", fmt.Sprintf("rule matched %d instances, hand-confirmed floor is %d: an anchor no longer resolves", n, min))
 	}
 }
@@ -165,6 +169,10 @@ var trustedBase = []string{
 
 // finish compares with known findings, writes evidence and the violations
 // file, prints the verdict lines and returns the exit code.
+// partialRun: a -only/-replay run evaluates a subset of the obligations; it
+// prints its verdict but leaves the evidence file of the full run alone.
+var partialRun bool
+
 func finish(verifDir string, prop *Property, tier string, seed int, reports []*Report, wall float64, engines []EngStat, selftest map[string]interface{}) int {
 	known, _ := loadKnown(filepath.Join(verifDir, "known_findings.txt"))
 	var all []Ob
@@ -279,7 +287,9 @@ func finish(verifDir string, prop *Property, tier string, seed int, reports []*R
 	}
 	evDir := filepath.Join(verifDir, "evidence")
 	_ = os.MkdirAll(evDir, 0o755)
-	writeJSON(filepath.Join(evDir, prop.ID+".json"), ev)
+	if !partialRun {
+		writeJSON(filepath.Join(evDir, prop.ID+".json"), ev)
+	}
 
 	fmt.Printf("property=%s tier=%s configs=%v obligations=%d discharged=%d known=%d violations=%d wall=%.1fs\n",
 		prop.ID, tier, cfgs, len(all), discharged, len(knownMatched), len(viol), wall)
@@ -292,6 +302,9 @@ func finish(verifDir string, prop *Property, tier string, seed int, reports []*R
 		fmt.Printf("  rule %-28s instances=%d\n", k, perRule[k])
 	}
 	vpath := filepath.Join(evDir, prop.ID+".violations.json")
+	if partialRun {
+		vpath = filepath.Join(evDir, prop.ID+".replay.violations.json")
+	}
 	if len(viol) == 0 {
 		_ = os.Remove(vpath)
 		return 0
